@@ -36,6 +36,10 @@ Theorem C04_check_sound : forall bs scr str o, run bs scr str = Some o -> C04_ch
 Proof. exact C04_check_sound_proof. Qed.
 Print Assumptions C04_check_sound.
 
+Theorem C04_check_sound_buffered : forall mx scr str o, mx >= 2 -> brun mx scr str = Some o -> C04_check mx scr o = true.
+Proof. exact C04_check_sound_buffered_proof. Qed.
+Print Assumptions C04_check_sound_buffered.
+
 (* translator obligation: the buffer size the batchers pass to the scanner is positive *)
 Theorem C04_bufsize_pos : (1 <= ReadAheadBufferSize)%Z.
 Proof. vm_compute. discriminate. Qed.
